@@ -177,8 +177,12 @@ def r08_2(ctx, rep):
     rset = {n for n, _ in removes}
     empties = [n for n in P.calls(r"Vec::<T, A>::is_empty$") if REMOVED(event_args(g, n)[0])]
 
+    direct = returned_calls(g) & rset      # `self.wal.send_remove_chunks(..)` as the tail expression: Ok return <=> sent
+
     def step(ms, pi, qi, learn):
         wrote, need = ms
+        if P.gnode(pi) in direct:
+            need = False
         for o, v in norm_learn(learn):
             cn = origin_call(o)
             if cn in wset and v in OKV:
@@ -221,6 +225,8 @@ def r08_2(ctx, rep):
         rep.ok("R08.2", "Op(flush) Ok returns", "non-empty removed_chunks => RemoveChunks sent", where=g.where(g.entry))
     # positive form (liveness of removal): every Ok return has established that nothing is left scheduled
     def step_c(ms, pi, qi, learn):
+        if P.gnode(pi) in direct:
+            ms = True
         for o, v in norm_learn(learn):
             cn = origin_call(o)
             if cn in empties and v == "true":
